@@ -1144,7 +1144,8 @@ MANIFEST = {
             "the right digest, subprotocol from the client's list, only offered extensions; reject => "
             "never OPEN/onOpen and an HTTP error and/or drop (at the latest by the opening-handshake "
             "timeout); always: no exception escapes to the framework."
-            " Origin allow-lists with one and with several entries (origins that continue an entry or cut it short).",
+            " Origin allow-lists with one and with several entries (origins that continue an entry or cut it short)."
+            " Request lines with malformed HTTP versions (HTTP/1, HTTP/1., HTTP/.1, HTTP/11, HTTP/1.10 ...).",
     "note": "Trusted: ref/http_handshake.py (written from RFC 6455/7230, three-valued where the RFCs or "
             "the configuration semantics leave room), env transports. Single mutations only in quick.",
     "technique": "exhaustive bounded enumeration of handshake inputs x configurations x read "
